@@ -22,7 +22,7 @@ THEOREMS = ["FP.Props.C19." + t for t in
 IMPORTS = ["FP.Props.C19"]
 RULE = ("per model class: the valid base input (edge and node mode), every single violation of k4inputs.variants "
         "(non-string node, cycle / no source-sink, negative / missing weight, non-conserving flow, 4 malformed constraint "
-        "shapes, coverage 0 / 1.5 / -1, coverage_length 1.5, k = 0 / -1 / 2.5 / '2', weight_type=str, origin='vertex', unknown "
+        "shapes, coverage 0 / 1.5 / -1, coverage_length 0 / 0.0 / -0.5 / 1.5 (with length_attr), coverage_length without length_attr, coverage_length together with coverage < 1, k = 0 / -1 / 2.5 / '2', weight_type=str, origin='vertex', unknown "
         "start / end, scaling 1.5 / -0.1, 2 wrong ignore shapes, empty graph, all elements ignored), every pair (quick: 120 "
         "sampled per class) and random triples of violations touching different arguments; converse: random valid instances of fpv.models.instance. Non-trivial: "
         "distinct violating input (single or pair).")
